@@ -400,6 +400,9 @@ pub fn run(pc: &PropCtx) {
     pc.assume("Interrupted reads are not injected here (C16 states they surface as errors in the line-by-line reader)");
     let cases = pc.tier.pick(60_000, 600_000);
     pc.run_tape("strategies", cases, (256, 6000), gen_case, check);
+    if pc.tier == crate::runner::Tier::Thorough {
+        pc.run_fuzz("C02:strategies", 300_000, 16000, &|v| replay(pc, "strategies", v).unwrap_or(Verdict::Reject("unreadable")));
+    }
     pc.require_class("strategies:reader_refilled>=2", cases as u64 / 4);
 }
 
